@@ -624,4 +624,26 @@ def collinearity_scale_free(repo: Repo) -> RuleRun:
 collinearity_scale_free.rule_id = "C07.COLLINEARITY-SCALE-FREE"
 
 
-RULES = [kind_registry, dedup, direction, reversal, face_edge_slots, curve_direction, edge_slots, length_direction, arc_side, validity_tolerance, own_edge_data, no_memo, reflex_midpoint, arguments_untouched, beam_list, shared_curve, collinearity_scale_free]
+def arc_sense(repo: Repo) -> RuleRun:
+    """'correctly directed': an angle-and-axis arc keeps the sense of rotation of the transformed entity under mirror / rotate - its axis is mapped, its angle follows the traversal. Same rule as C09.ARC-SENSE."""
+    from ..report import rebrand
+    from . import c09
+
+    return rebrand(c09.arc_sense(repo), PROP, "C07.ARC-SENSE")
+
+
+arc_sense.rule_id = "C07.ARC-SENSE"
+
+
+def no_alias_store(repo: Repo) -> RuleRun:
+    """'written ... with the data given': the point array of a spline / polyLine edge is the edge's own - not the caller's array, which another edge built from it (or an in-place translate of another face) would move. Same rule as C09.NO-ALIAS-STORE."""
+    from ..report import rebrand
+    from . import c09
+
+    return rebrand(c09.no_alias_store(repo), PROP, "C07.NO-ALIAS-STORE")
+
+
+no_alias_store.rule_id = "C07.NO-ALIAS-STORE"
+
+
+RULES = [kind_registry, dedup, direction, reversal, face_edge_slots, curve_direction, edge_slots, length_direction, arc_side, validity_tolerance, own_edge_data, no_memo, reflex_midpoint, arguments_untouched, beam_list, shared_curve, collinearity_scale_free, arc_sense, no_alias_store]
